@@ -25,8 +25,8 @@ P = {
          "for a Pratt parser these table and loop facts are the grouping; interaction with projections is covered under C01"),
  "C11": ("units analysis separating byte quantities from code-point quantities in every integer operation, string cut and integer result; no byte indexing of strings; decode loops advance; lexer positions move only by decoded sizes; U+FFFD is a character",
          "code-point ordering of string comparison is a library fact; the rename-equivariance clause as such is not decided"),
- "C12": ("parser defaults and absence flags, step 0 is the only error, is-a-projection flag, string bypass exactly for slice nodes, ordered two-sided slices, bounded walks, array/string clamp siblings agree",
-         "the clamping arithmetic itself (which elements a (n,start,stop,step) selects) is not decided; only that the array and string copies agree"),
+ "C12": ("parser defaults and absence flags, step 0 is the only error, is-a-projection flag, string bypass exactly for slice nodes, ordered two-sided slices, bounded walks, array/string clamp siblings agree; the clamping arithmetic of the two slice helpers on arrays, by interpretation with symbolic start/stop/step/length in a linear-inequality domain: in every region of (sign of step, start, stop, length) the specification distinguishes the result is empty exactly where the specified walk is, a[lo:hi] has the specified bounds, and a stepped result has ceil(|hi-lo|/|step|) elements read from lo, lo+step, ...; for strings the clamp-only empty results and the reserved result length",
+         "the walk over the characters of a string (skipping lo code points, taking every step-th) is not decided beyond the clamp siblings and the units/decode rules; machine wrap-around at the 64-bit limits is not modelled (linear forms are over the integers)"),
  "C13": ("sort_by reaches only a stable sort with strict Less and complete Swap, sorting happens on a clone, type errors are decided by scanning every element (never inside a comparator), keys compared as decimals",
          "that comparison is by value/code point (library facts) and extremal-element selection beyond type checks are not decided"),
  "C14": ("every numeric classification lists the same 14 kinds with uniform results; float and decimal paths trap the same conditions and round the same way (integerDivide is a recorded finding); integer coercion decided on the decimal value; lossless integer conversions; coerced integers never become results",
@@ -54,7 +54,7 @@ def rules_of(pid):
             rs.append(f[0])
     return rs
 
-INTERP = {"T-LEX", "T-PREC", "T-INFIX", "T-PRIMARY", "T-INDEX", "T-FUNC", "T-DELIMS", "T-LOOPS", "D-DISPATCH", "E-OPCHAIN", "E-TOINT", "E-TYPE-FIRST", "E-SCOPE-CHAIN", "E-NODESETS", "E-TRUTHY", "A-ERRMAP", "A-ERR-IS", "A-API-SHAPE", "A-NIL-RESULT", "E-PRUNE", "E-SELECTOR-NULL", "E-FILTER-GUARDS-RHS", "E-TIES", "E-FLOATPAIR", "E-PARSE-STRICT", "P-DECODE", "E-EXHAUST", "E-ELEMTESTS", "E-EXTREMES", "E-MAKE-CAP", "E-DIRECTION", "T-FUNC-NOPANIC", "P-JSON-DECODE", "E-EACH-ONCE", "E-CONTAINER-KIND", "T-DECODER", "E-COERCION-TABLE"}
+INTERP = {"T-LEX", "T-PREC", "T-INFIX", "T-PRIMARY", "T-INDEX", "T-FUNC", "T-DELIMS", "T-LOOPS", "D-DISPATCH", "E-OPCHAIN", "E-TOINT", "E-TYPE-FIRST", "E-SCOPE-CHAIN", "E-NODESETS", "E-TRUTHY", "A-ERRMAP", "A-ERR-IS", "A-API-SHAPE", "A-NIL-RESULT", "E-PRUNE", "E-SELECTOR-NULL", "E-FILTER-GUARDS-RHS", "E-TIES", "E-FLOATPAIR", "E-PARSE-STRICT", "P-DECODE", "E-EXHAUST", "E-ELEMTESTS", "E-EXTREMES", "E-MAKE-CAP", "E-DIRECTION", "T-FUNC-NOPANIC", "P-JSON-DECODE", "E-EACH-ONCE", "E-CONTAINER-KIND", "T-DECODER", "E-COERCION-TABLE", "E-CLAMP-SPEC"}
 
 def technique(rs):
     interp = [r for r in rs if r in INTERP]
